@@ -144,6 +144,18 @@ CLAIMED["C11"] = (
     "205-207 are pins, src=doc).",
     "DESIGN.md §5 C11")
 
+CLAIMED["C13"] = (
+    "model_checking",
+    "TLA+ model of IEC 62386-103 control devices/instances (Dev103) with the byte-wise input value protocol and the "
+    "event filter/scheme registers; reassembly identity for resolutions 1..32 and the filter law with stale DTRs "
+    "checked by TLC; real sequence traces re-executed on the model and judged by TLC (DevSeqJudge)",
+    "All resolutions 1..32 with all (small) / structured + random values, every library filter enum plus user-defined "
+    "16- and 24-bit enums x flag sets x stale DTR contents, valid and invalid schemes, buses of 0..64 devices for the "
+    "discovery scan, silence or framing error at each step.",
+    "Trusted: TLC; my reading of 103 9.7.2 (MSB-aligned value with repeated low bits) and of SET EVENT FILTER "
+    "(DTR2:DTR1:DTR0). The device simulator is re-executed by TLC.",
+    "DESIGN.md §5 C13")
+
 NOT_YET = {}
 
 
